@@ -29,6 +29,13 @@ CLAIMED["C04"] = (
     "DESIGN.md section 3, C04",
 )
 
+CLAIMED["C18"] = (
+    "exhaustive path enumeration of the CLI commands over go/ssa (E-path) with value-origin tracking of printed/written operands + constant-flag check",
+    "All paths of the four commands and main are enumerated over {library call, stdout/stderr print, open/create/write/sync, os.Exit(n), panic}. Decided on every path: the emitted text is the library's own value passed as an operand (never a format string, never recomputed), at most once; failures (non-nil error or library panic) print nothing to stdout and end non-zero; files are truncated when opened for writing; writes are synced; no error result is discarded. Right level: the CLI is thin glue whose obligations are orderings and value identities visible in the source.",
+    "The operating system's handling of the file, and the byte content of the library's value, are out of scope. Zero-emission paths are not reported because the infeasible 'neither 4 nor 5 arguments' path cannot be excluded statically; instead at least one emitting path per command is required. " + TRUST,
+    "DESIGN.md section 3, C18",
+)
+
 # properties without a check yet (or declined), with the reason
 NOT_APPLICABLE = {
 }
